@@ -466,6 +466,9 @@ class Translator(object):
             return SKIP
         t = type(e)
         where = '%s:%d' % (ctx.modname, getattr(e, 'lineno', 0))
+        if t is ast.Name and 'memory' in e.id and ctx.env.get(e.id) != MEM and not e.id.endswith('_size'):
+            # fail closed: a memory reader that the kind inference missed would lose its __getitem__/__setitem__ calls
+            raise SkelError('%s: name %s looks like a memory reader but has no kind' % (where, e.id))
         if t in (ast.Constant, ast.Name):
             return SKIP
         if t is ast.Attribute:
